@@ -29,7 +29,8 @@ ASSUMPTIONS = [
     "for document / tree routes the value first passes to_python, whose leniency is not claimed; only failures are judged",
 ]
 REQUIRED = ["target:leaf", "target:item-leaf", "target:dict-entry", "target:list-item", "target:subconfig", "route:setattr",
-            "route:setitem", "route:ctor", "route:load_tree", "route:loads", "route:container", "route:inplace", "depth>=2", "raised"]
+            "route:setitem", "route:ctor", "route:load_tree", "route:loads", "route:container", "route:inplace", "depth>=2", "raised",
+            "target:include@depth0", "target:include@depth1", "target:include@depth2", "failed-reoffer"]
 LEVEL_TEXT = (
     "Generated schemas x targets x rejected values x routes; the raised exception's type and reference path are "
     "compared with a model path computed from the spec; kills mutants that re-raise the field's own exception, "
@@ -100,9 +101,12 @@ def strategy(tier):
             if kind == "leaf":
                 val = st.one_of(specs.values(t[2]), specs.junk())
                 routes = ["setattr", "setitem", "ctor", "load_tree", "loads", "container"]
+                if t[2]["kind"] == "include":
+                    # a document load resolves (and rejects) include values before anything else, at every depth
+                    routes = ["loads", "loads", "loads", "load_tree", "setattr", "setitem"]
             elif kind == "item-leaf":
-                val = st.one_of(specs.values(t[4]), specs.junk())
-                routes = ["item-setattr", "item-setattr", "item-setattr", "append", "insert", "setitem-index", "assign-list", "load_tree", "loads", "extend"]
+                val = st.one_of(specs.values(t[4]), specs.junk(), specs.junk())
+                routes = ["item-setattr", "item-setattr", "item-setattr", "append", "insert", "setitem-index", "setitem-slice", "setitem-slice", "assign-list", "load_tree", "loads", "extend"]
             elif kind == "dict-entry":
                 vf = t[2].get("valuef")
                 val = st.one_of(specs.values(vf) if vf else specs.junk(), specs.junk())
@@ -120,15 +124,16 @@ def strategy(tier):
                          else st.sampled_from(["a", "k1", "Key", "x.y", "", "1"])),
                 "good": st.lists(specs.values(t[2]["item"]) if kind == "list-item" else st.none(), min_size=3, max_size=3),
                 "built_by": st.sampled_from(["assign", "load_tree"]),
+                "reoffer": st.booleans(),
                 "shift": st.lists(st.sampled_from(["del0", "pop", "insert0", "reverse", "append", "swap"]), min_size=0 if kind != "item-leaf" else 1, max_size=3),
             })
         # choose the target class first: plain leaves outnumber everything else by far
         by_kind = {}
         for i, t in enumerate(targets):
-            by_kind.setdefault(t[0], []).append(i)
+            by_kind.setdefault("leaf:include" if t[0] == "leaf" and t[2]["kind"] == "include" else t[0], []).append(i)
         return st.sampled_from(sorted(by_kind)).flatmap(lambda k: st.sampled_from(by_kind[k])).flatmap(for_target)
-    from .c06 import _with_includes
-    return worlds.schema_spec(tier, allow=("schema", "schema", "configtype", "schemalist", "virtual", "method", "featureflag")).flatmap(_with_includes).flatmap(pick)
+    from .c16 import _with_includes  # an include field at the root and in every nested schema, at every depth
+    return worlds.schema_spec(tier, allow=("schema", "schema", "configtype", "schemalist", "virtual", "method", "featureflag")).map(_with_includes).flatmap(pick)
 
 
 def _nest(path, value):
@@ -149,6 +154,8 @@ def run_case(case, R):
     spec = _relax(spec, keep)
     t = _targets(spec)[case["target"] % len(targets)]
     R.label("target:" + kind)
+    if kind == "leaf" and t[2]["kind"] == "include":
+        R.label("target:include@depth%d" % min(len(t[1]) - 1, 2))
     ctx = specs.ref_ctx()
     route = case["route"]
     value = specs.realize(case["value"])
@@ -160,6 +167,7 @@ def run_case(case, R):
         must_raise = False
         name = None
         alt_paths = ()
+        history = ""
 
         def load(tree, how):
             if how == "loads" and ops.is_plain(tree, fmt):
@@ -323,7 +331,7 @@ def run_case(case, R):
                     return
                 n_before = len(lst)
                 bad_item = _nest(ipath, value)
-                R.label("route:inplace" if route in ("item-setattr", "append", "insert", "setitem-index", "extend") else "route:container" if route == "assign-list" else "route:x")
+                R.label("route:inplace" if route in ("item-setattr", "append", "insert", "setitem-index", "setitem-slice", "extend") else "route:container" if route == "assign-list" else "route:x")
                 if route == "item-setattr":
                     # the list may have been rearranged in place since its items were loaded
                     for sh in case.get("shift", []):
@@ -346,6 +354,18 @@ def run_case(case, R):
                     if not lst:
                         return
                     i = case["index"] % len(lst)
+                    if case.get("reoffer"):
+                        # a rejected whole-list assignment that offers the item again (at another position)
+                        chosen = lst[i]
+                        try:
+                            ops.set_via(cfg, lpath, [{} for _ in range((i + 1) % 3)] + [chosen, bad_item], "setattr")
+                        except Exception:
+                            history = ":after-failed-reoffer"
+                            R.label("failed-reoffer")
+                        else:
+                            # load semantics accepted the map: the list was replaced, the item has moved
+                            lst = worlds.get_path(cfg, lpath)
+                            i = next(n for n, x in enumerate(lst) if x is chosen)
                     must_raise = True
                     want = "%s[%d].%s" % (".".join(lpath), i, ".".join(ipath))
                     action = lambda: ops.set_via(lst[i], ipath, value, "setattr")
@@ -365,6 +385,12 @@ def run_case(case, R):
                     i = case["index"] % len(lst)
                     want = "%s[%d].%s" % (".".join(lpath), i, ".".join(ipath))
                     action = lambda: lst.__setitem__(i, bad_item)
+                elif route == "setitem-slice":
+                    # lst[i:j] = [ok..., bad]: the rejected item was meant for index i + (number of items before it)
+                    i = case["index"] % (len(lst) + 1)
+                    lead = len(case.get("shift", [])) % 3 if len(lst) else 0  # an empty list: {} alone is not a valid item
+                    want = "%s[%d].%s" % (".".join(lpath), i + lead, ".".join(ipath))
+                    action = lambda: lst.__setitem__(slice(i, i + 1 + case["n_before"] % 2), [{} for _ in range(lead)] + [bad_item])
                 elif route == "assign-list":
                     want = "%s[%d].%s" % (".".join(lpath), n_before, ".".join(ipath))
                     action = lambda: ops.set_via(cfg, lpath, [{} for _ in range(n_before)] + [bad_item], "setattr")
@@ -382,7 +408,7 @@ def run_case(case, R):
             err = None
         except Exception as exc:
             err = exc
-        site = "%s:%s" % (kind, route)
+        site = "%s:%s%s" % (kind, route, history)
         if err is None:
             R.label("not-raised")
             if must_raise:
